@@ -228,7 +228,7 @@ func (g XGen) genExtra(t *rapid.T, kind int) XItem {
 	case kComment:
 		return XItem{Kind: kComment, Text: rapid.SampledFrom([]string{" c ", "note", "a < b & c", " x=\"1\" ", ""}).Draw(t, "comment")}
 	case kProcInst:
-		return XItem{Kind: kProcInst, Text: rapid.SampledFrom([]string{"pi a=\"1\"", "target some instruction", "php echo 1;", "t"}).Draw(t, "pi")}
+		return XItem{Kind: kProcInst, Text: rapid.SampledFrom([]string{"pi a=\"1\"", "target some instruction", "php echo 1;", "t", "xml-stylesheet href=\"a.xsl\"", "xml-model x", "xmlfoo y", "x-xml z"}).Draw(t, "pi")}
 	}
 	return XItem{Kind: kDirective, Text: rapid.SampledFrom([]string{"DOCTYPE a", "ENTITY x \"y\"", "DIRECTIVE text here"}).Draw(t, "dir")}
 }
